@@ -218,13 +218,19 @@ Unary(kind, v) ==
            [] v.t = "Float" ->
                 IF v.f.c # "fin" THEN ErrP("Cast", v)
                 ELSE IF v.f.m = <<>> THEN Ok(VDec(ZZero, 0))
-                ELSE \* the library's conversion, transcribed step by step (Decimal.tla, Base2ToDecimal): exact
+                ELSE \* the library's conversion, transcribed step by step (Decimal.tla, Base2ToDecimal).  It keeps about 15
+                     \* significant digits: where its result IS the float's exact value (every whole number below 2^96, every
+                     \* short binary fraction) that value is prescribed; elsewhere the result is one of many defensible
+                     \* decimals near the float and is compared within 15 significant digits (below 2^-100: with zero)
                      LET L == MBitLen(v.f.m)
                          normal == L + v.f.e - 1 >= -1022
                          M == IF normal THEN MShl(v.f.m, 53 - L) ELSE MShl(v.f.m, v.f.e + 1074)
                          E2 == IF normal THEN v.f.e - (53 - L) ELSE -1074
                          r == Base2ToDecimal(M, E2)
-                     IN IF r.k = "none" THEN ErrP("Cast", v) ELSE Ok(VDec(Z(v.f.s, r.m), r.sc))
+                     IN IF r.k = "none" THEN ErrP("Cast", v)
+                        ELSE LET d == VDec(Z(v.f.s, r.m), r.sc) IN
+                             IF r.m # <<>> /\ FloatIsExactlyDec(v.f, d.n, d.sc) THEN Ok(d)
+                             ELSE IF L + v.f.e < -100 THEN OkA(d, "decTiny") ELSE OkA(d, "dec15")
            [] v.t = "Dec" -> Ok(v)
            [] v.t = "Str" -> LET d == ParseDecStr(v.cs) IN
                              IF d.k = "invalid" THEN ErrP("Cast", v)
